@@ -51,6 +51,14 @@ def gen_files(tier):
                         continue
                     yield {'recs': [{'eflr': int(eflr), 'type': typ, 'L': L, 'lb': 'coded', 'cuts': cut, 'opts': opts,
                                      'newvr': [0] + list(pack)}]}
+    # encrypted records (the payload is opaque, the index and the fetches treat it like any other): whole and in segments
+    for (eflr, typ) in kinds:
+        for cut, newvr in (([], [0]), ([12], [0, 0]), ([12], [0, 1]), ([12, 26], [0, 1, 0])):      # segments of even length >= 12: no pad needed
+            n = len(cut) + 1
+            for encpad in (0, 1):
+                yield {'recs': [{'eflr': int(eflr), 'type': typ, 'L': 40, 'lb': 'coded', 'cuts': cut, 'opts': [[0, 0, 0]] * n,
+                                 'newvr': newvr, 'enc': 1, 'encpad': encpad},
+                                {'eflr': 1, 'type': 3, 'L': 13, 'lb': 'coded'}]}
     # records that span several maximum-size visible records
     for L, chunk in ((32744, 16372), (20000, 8190)):
         cuts = list(range(chunk, L, chunk))
